@@ -190,18 +190,19 @@ def Cache.findIdx (c : Cache) (perm : List Event → List Event) (f : Filter) : 
     | none => cands.length
   topkLoop f limit (perm cands) [] 0
 
+/-- one filter of `findNeedLock`: the index path or the scan path, its result merged into the tree -/
+def Cache.findStep (c : Cache) (perm : List Event → List Event) (acc : Res (List Event)) (f : Filter) : Res (List Event) :=
+  match acc with
+  | .panic => .panic
+  | .ok tree =>
+    match (if isFullScanFilter f then scanLoop { f := f } c.byTime else c.findIdx perm f) with
+    | .panic => .panic
+    | .ok es => .ok (es.foldl (fun t e => insertOrd e t) tree)
+
 /-- `findNeedLock` + `Find`: per filter the index path or the scan path, results merged into one tree -/
 def Cache.find (c : Cache) (perm : List Event → List Event) (fs : List Filter) : Res (List Event) :=
   if Gen.findEmpty c.evs.length then .ok []
-  else
-    fs.foldl (fun acc f =>
-      match acc with
-      | .panic => .panic
-      | .ok tree =>
-        let r := if isFullScanFilter f then scanLoop { f := f } c.byTime else c.findIdx perm f
-        match r with
-        | .panic => .panic
-        | .ok es => .ok (es.foldl (fun t e => insertOrd e t) tree)) (.ok [])
+  else fs.foldl (c.findStep perm) (.ok [])
 
 def Cache.len (c : Cache) : Int := c.evs.length
 
